@@ -154,8 +154,8 @@ def router_identity_gate(h):
     from .d_c07 import _frames
     prog = h.it.prog
     k = h.params.get("ops", 4)
-    eng = Ref(Cell(h.method(AIE2, "new", 4), "ingress"), ())
-    senders = [Ref(Cell(h.method(AIE2, "register_pipe", eng, p, 4, 1), f"s{p}"), ()) for p in range(2)]
+    eng = Ref(Cell(h.method(AIE2, "new", max(4, k)), "ingress"), ())
+    senders = [Ref(Cell(h.method(AIE2, "register_pipe", eng, p, max(4, k), 1), f"s{p}"), ()) for p in range(2)]
     fields = prog.struct_fields(ROUTER)
     vals = {"ingress_engine": eng.load(), "pipe_finalized": BoxV(Cell(MapV("HashMap", []), "finalized"), ()),
             "held_ingress": Agg("{lock}", [MapV("HashMap", [])]), "held_count": Agg("{atomic}", [0]),
